@@ -365,6 +365,17 @@ def judge(ctx, case, items, got, lst, label, escaped_sigprefix):
                '%s [%s]: well-formed items %r are not all delivered in order; got %r' % (kind, label, exp[:8], got[:8]),
                case, 'differential')
       return False
+  # an over-long item MAY close the connection; if the listener chose to keep it open, the over-long item is a
+  # malformed item like any other: what follows it has to arrive as if it were absent
+  if (first_terminal is not None and not lst.transport.disconnecting and kind != 'udp' and
+          all(it['kind'] in ('good', 'bad', 'terminal') for it in items)):
+    exp_all = [e for it in items for e in it['expected']]
+    ok = len(got) == len(exp_all) and all(_same(e, g) for e, g in zip(exp_all, got))
+    if not ok:
+      ctx.fail('C11:%s-neighbour-affected' % kind,
+               '%s [%s]: an over-long item did not close the connection, yet the well-formed items after it did not all '
+               'arrive: delivered %d datapoints, %d were sent around it' % (kind, label, len(got), len(exp_all)), case, 'differential')
+      return False
   return True
 
 
